@@ -18,6 +18,8 @@ type Disagreement struct {
 	Case  string `json:"case"`
 	Impl  string `json:"impl"`
 	Model string `json:"model"`
+	// Properties the differing observable belongs to (empty = every property of the group).
+	Properties []string `json:"properties,omitempty"`
 }
 
 // Violation is a failure of a property oracle on the implementation itself.
@@ -39,6 +41,7 @@ type Result struct {
 	Exhaustive         bool              `json:"exhaustive"`
 	Samples            []any             `json:"samples"`
 	NDisagreements     int               `json:"n_disagreements"`
+	DisagreementsBy    map[string]int    `json:"disagreements_by,omitempty"` // property id (or "*" = all) -> count
 	Disagreements      []Disagreement    `json:"disagreements"`
 	Violations         []Violation       `json:"violations"`
 	OracleChecked      map[string]int    `json:"oracle_checked"`
@@ -53,9 +56,29 @@ func NewResult(group, tier string, seed int64) *Result {
 }
 
 func (r *Result) Disagree(c, impl, model string) {
+	r.DisagreeFor(nil, c, impl, model)
+}
+
+// DisagreeFor records a model/implementation difference that concerns only the given
+// properties (a group serving several properties compares several observables per case;
+// a difference in an observable of one property must not raise an alarm for its siblings).
+func (r *Result) DisagreeFor(props []string, c, impl, model string) {
 	r.NDisagreements++
-	if len(r.Disagreements) < 20 {
-		r.Disagreements = append(r.Disagreements, Disagreement{c, impl, model})
+	if r.DisagreementsBy == nil {
+		r.DisagreementsBy = map[string]int{}
+	}
+	if len(props) == 0 {
+		r.DisagreementsBy["*"]++
+	}
+	keep := len(r.Disagreements) < 20
+	for _, p := range props {
+		r.DisagreementsBy[p]++
+		if r.DisagreementsBy[p] <= 5 {
+			keep = true
+		}
+	}
+	if keep && len(r.Disagreements) < 200 {
+		r.Disagreements = append(r.Disagreements, Disagreement{c, impl, model, props})
 	}
 }
 
